@@ -2,6 +2,7 @@
 let () =
   let f = match Sys.argv.(1) with
     | "c18" -> C18.run_case
+    | "reg" -> Reg.run_case
     | p -> failwith ("unknown property " ^ p) in
   try
     while true do
